@@ -381,6 +381,16 @@ func (d *doc) text() []byte {
 			add("identitytoken", e.IdentityToken)
 			add("registrytoken", e.RegistryToken)
 			add("email", e.Email)
+			if rng.IntN(4) == 0 {
+				// members that are no part of the schema (other tools write them; a reader ignores them),
+				// among them names an implementation might use for bookkeeping of its own
+				noise := []string{`"serveraddress": "https://index.example/v1/"`, `"derivedFrom": ["x"]`, `"DerivedFrom": ["a", "b"]`, `"derivedfrom": ["https://elsewhere.example/v1/", "https://other.example/"]`,
+					`"explicit": false`, `"host": "other.example.org"`, `"key": "other.example.org"`, `"helper": "c19creds"`, `"source": {"derived": true}`}
+				fs = append(fs, noise[rng.IntN(len(noise))])
+				if rng.IntN(3) == 0 {
+					fs = append(fs, noise[rng.IntN(len(noise))])
+				}
+			}
 			rng.Shuffle(len(fs), func(i, j int) { fs[i], fs[j] = fs[j], fs[i] })
 			ents = append(ents, "\t\t"+jstr(k)+": {"+strings.Join(fs, ", ")+"}")
 		}
